@@ -5,6 +5,7 @@ import (
 	"fmt"
 	"os"
 	"path/filepath"
+	"regexp"
 	"sort"
 	"strings"
 )
@@ -140,8 +141,31 @@ func (r *Report) classify(known map[string]string, reviewed map[string]reviewedE
 		if o.Status != stViolation {
 			continue
 		}
-		if e, ok := reviewed[o.Key()]; ok {
-			used[o.Key()] = true
+		e, ok := reviewed[o.Key()]
+		ekey := o.Key()
+		if !ok {
+			// the same construct in another function of the same package: code that was moved
+			// into (or out of) a helper keeps its reviewed argument as long as the facts the
+			// entry requires still hold at the site
+			parts := strings.SplitN(o.Key(), "|", 3)
+			if len(parts) == 3 {
+				var rkeys []string
+				for k := range reviewed {
+					rkeys = append(rkeys, k)
+				}
+				sort.Strings(rkeys)
+				for _, k := range rkeys {
+					cand := reviewed[k]
+					kp := strings.SplitN(k, "|", 3)
+					if len(kp) == 3 && !used[k] && kp[0] == parts[0] && stripOrdinal(kp[2]) == stripOrdinal(parts[2]) && pkgOfFunc(kp[1]) == pkgOfFunc(parts[1]) && k != o.Key() {
+						e, ok, ekey = cand, true, k
+						break
+					}
+				}
+			}
+		}
+		if ok {
+			used[ekey] = true
 			missing := ""
 			for _, req := range e.Requires {
 				found := false
@@ -269,4 +293,33 @@ func writeEvidence(pc *propCheck, r *Report, seed int, wall float64, nviol int) 
 	if err := os.WriteFile(filepath.Join(dir, r.Prop+".json"), data, 0o644); err != nil {
 		fmt.Fprintln(os.Stderr, "cannot write evidence:", err)
 	}
+}
+
+var shapeQual = regexp.MustCompile(`([A-Za-z_φ][A-Za-z0-9_]*|…)\.`)
+var shapeLen = regexp.MustCompile(`len\((…|[.A-Za-z0-9_]+)\)`)
+
+// stripOrdinal removes the "#n" ordinal of a construct and the parts of its rendering that
+// depend on how deep the expression happens to be nested (elided qualifiers).
+func stripOrdinal(s string) string {
+	if i := strings.LastIndex(s, " #"); i >= 0 {
+		s = s[:i]
+	}
+	s = shapeQual.ReplaceAllString(s, ".")
+	s = shapeLen.ReplaceAllString(s, "len()")
+	// a value made in place and the same value made by a helper
+	s = shapeCall.ReplaceAllString(s, "VALUE")
+	s = strings.ReplaceAll(s, "MakeMap", "VALUE")
+	return s
+}
+
+var shapeCall = regexp.MustCompile(`[A-Za-z_][A-Za-z0-9_]*\([^()]*\)#[0-9]+`)
+
+// pkgOfFunc: the package part of a rendered function name such as
+// "(*postscript.Interpreter).executeOne" or "type1.Read".
+func pkgOfFunc(s string) string {
+	s = strings.TrimLeft(s, "(*")
+	if i := strings.IndexByte(s, '.'); i >= 0 {
+		return s[:i]
+	}
+	return s
 }
